@@ -6,4 +6,4 @@ Require Import ExtrOcamlBasic.
 Extraction Language OCaml.
 Extraction "model.ml" compile walk_adv walk_matching cwalk_adv no_ctl pinned repaired
   get step_deref step deref parse_path format_path seg_string seg_index seg_equals lookup_seg
-  f64_is_nan dm_eqb interests explore match_sel denote_sel enter walk_quirk_free compile_alloc chain_ok walk_fuel no_shared_depth current nsd_rec noempty focus_from walk.
+  f64_is_nan dm_eqb interests explore match_sel denote_sel enter walk_quirk_free compile_alloc chain_ok walk_fuel no_shared_depth current nsd_rec noempty focus_from walk get_ctx walk_local_all get_local path_append_string path_append_int path_join path_truncate path_pop path_shift path_last.
